@@ -1875,7 +1875,7 @@ class NoteRestToken(ComplexToken):
                 s for s in pitch_duration_tokens_sorted
                 if s.category in {TokenCategory.PITCH, TokenCategory.ALTERATION}
             ]
-            if only_pitches_and_alterations:
+            if any(s.category == TokenCategory.PITCH for s in only_pitches_and_alterations):  # nothing to convert without a pitch
                 agnostic_pitch_representation = convert_pitch_to_agnostic_fn(
                     "".join(s.encoding for s in only_pitches_and_alterations)
                 )
